@@ -250,6 +250,32 @@ class Runner:
                             o = classify(h, u, r, prof)
                             o.crate = (i, prof)
                             outcomes.append(o)
+        # solver diversity (thorough tier): re-decide a slice of the harnesses with kissat
+        self.kissat = None
+        nk = plan.kissat_slice or (24 if self.tier == "thorough" else 0)
+        if nk and not plan.stubbing:
+            import random as _r
+            rr_ = _r.Random(self.seed + 99)
+            pool = [o for o in outcomes if o.verdict in ("ok", "fail") and o.h.expect in ("pass", "reach")]
+            pick = rr_.sample(pool, min(nk, len(pool)))
+            bycrate = {}
+            for o in pick:
+                bycrate.setdefault(o.crate, []).append(o)
+            agree = disagree = 0
+            for key, os_ in bycrate.items():
+                cr, tdir = crates[key]
+                res = E.run_kani(cr, tdir, jobs=E.NCPU, only=[f"{o.uid}::{o.hname}" for o in os_], solver="kissat", harness_timeout=plan.harness_timeout)
+                for o in os_:
+                    r = res["results"].get(f"{o.uid}::{o.hname}")
+                    if r is None:
+                        continue
+                    o2 = classify(o.h, o.unit, r, o.profile)
+                    if o2.verdict == o.verdict:
+                        agree += 1
+                    else:
+                        disagree += 1
+                        self.inconclusive.append(f"solver disagreement on {o.uid}::{o.hname}: cadical={o.verdict} kissat={o2.verdict}")
+            self.kissat = {"harnesses": len(pick), "agree": agree, "disagree": disagree}
         unit_by_uid = {u.uid: u for u in all_units}
         log(f"[{pid}] solve stage done at {time.time() - self.t0:.1f}s")
         # ---- counterexamples: playback + native replay --------------------------------------------
@@ -515,6 +541,7 @@ class Runner:
                 "negative_controls": ctl_report,
                 "oracle_selftest": getattr(self, "selftest", {}),
                 "native_executions": getattr(self, "native_runs", 0),
+                "second_solver_kissat": self.kissat,
                 "known_findings_hit": [{"role": k["role"], "unit": r["unit"]} for (r, k) in knowns],
                 "inconclusive": self.inconclusive[:40],
                 "unreproduced_counterexamples": len(unrepro),
